@@ -723,9 +723,17 @@ def glue_trio() -> None:
             else:  # pragma: no cover
                 return None
 
-            # Find the system task that matches this call
+            # Find the system task that matches this call. Normally its
+            # context is the message's context, but Trio temporarily gives
+            # the task a copy of that context while it hosts a reentrant
+            # from_thread.run() call made by a to_thread.run_sync() function,
+            # so also recognize the task by the message it was spawned to run.
             for task in runner.system_nursery.child_tasks:  # pragma: no branch
-                if task.context is message.context:  # pragma: no branch
+                coro_frame = getattr(task.coro, "cr_frame", None)
+                if task.context is message.context or (
+                    coro_frame is not None
+                    and coro_frame.f_locals.get("self") is message
+                ):  # pragma: no branch
                     frame.hide = True
                     return task.coro
 
